@@ -272,14 +272,11 @@ def split_guard(db, ctx):
         if pol and ek in ("ok", "ret") and mentions(cond, lambda x: x.get("k") == "Path" and path_ends(x.get("path"), "Mode::C")):
             ok = True
     ctx.ob("split_path|mode-C-returns-early", ok, "split_path returns before splitting when mode == Mode::C: %s" % ok, fn=sp)
-    ns = db.one("num_splits", "ResultNode")
-    val = None
-    for n, _ in walk(ns.hir):
-        if n.get("k") == "Match" and n.get("src") == "Normal":
-            for a in n["arms"]:
-                pth = (a["pat"].get("e") or {}).get("path") or a["pat"].get("path") or ""
-                if pth.endswith("Mode::C"):
-                    val = lit_int(a["body"])
+    ns = db.view(db.one("num_splits", "ResultNode"))
+    from ..flow import select
+    from .C09 import ev_mode
+    body = ns.hir
+    val = lit_int(select(db, ns, body, ev_mode("C")))
     ctx.ob("num_splits|C=0", val == 0, "ResultNode::num_splits(Mode::C) = %s (must be 0)" % val, fn=ns)
     si = db.one("split_into", "MorphemeList")
     from ..flow import reachable_at, is_local_from_call
